@@ -106,9 +106,18 @@ def h_transforms(model: str, n: int, k: int, source: int, **sym):
     for name in names:
         prev_triples = list(cur.triples)
         prev_attrs = [tuple(t) for t in cur.attributes()]
-        prev_pushes = sum(
-            1 for t in cur.triples for e in cur.epidata.get(t, [])
-            if type(e).__name__ == 'Push')
+        # markers that really open a nested node: the pushed variable is the
+        # triple's target, or its source with a variable as the other end (a
+        # stale marker left on an attribute opens nothing)
+        cur_vars = cur.variables()
+        prev_pushes = 0
+        for t in cur.triples:
+            for e in cur.epidata.get(t, []):
+                if type(e).__name__ == 'Push':
+                    if e.variable == t[2] or (e.variable == t[0]
+                                              and t[2] in cur_vars):
+                        prev_pushes += 1
+                    break
         try:
             nxt = apply_transform(name, cur, real)
         except Exception as exc:
